@@ -115,6 +115,8 @@ def concretise(cell):
 
 # parsable, but the evaluation of the builtin call fails inside TIFA (no positional argument reaches its definition)
 FAULT = "opts = {}\nprint(sorted(**opts))\nprint(reversed(**opts))\n"
+GENERIC = ("nums: list[int] = [1, 2, 3]\ntable: dict[str, int] = {}\npair: tuple[int, str] = (1, 'a')\nnames: set[str] = set()\n"
+           "def total(ys: list[int], m: dict[str, int]) -> int:\n    return sum(ys) + len(m)\nprint(total(nums, table), pair, names)\n")
 OTHER = "total = 0\nfor i in range(3):\n    total = total + i\nprint(total)\n"
 
 
@@ -162,7 +164,7 @@ def replay_chunk(cases, extra):
         except SyntaxError as e:
             out.append({"cell": cell, "kind": "harness", "detail": "generated program does not parse: %s" % e, "source": src})
             continue
-        progs = {"c": src, "d": OTHER, "x": FAULT}
+        progs = {"c": src, "d": OTHER, "x": FAULT, "g": GENERIC}
         nlines = {k: len(v.split("\n")) for k, v in progs.items()}
         first = {}
         if any(h["op"] == "analyze" and h["p"] == "x" for h in rec["hist"]):
